@@ -268,6 +268,44 @@ def run(ck: vlib.Check):
                         rec = tcls().encode(rich, probe.ectx_w if rep % 2 else probe.ectx)
                         return [(fl, getattr(rec, fl)) for fl in flds if fl != "_flags"]
                     cases.append((kind, key, "enc", nums, vlib.impl_result(f)))
+    # state independence: a record that differs from another ONLY in fields its type does not use (EUD mask flag "SC",
+    # bitmask in the location field, padding) is decoded and KEPT ALIVE; decoding / encoding the plain twin before and
+    # after must give the same record (nothing remembered about one object may leak into an equal one)
+    keep_alive = []
+    for kind, reg, flds, widths, idf in ((0, acts, ACTION_FIELDS, ACTION_WIDTH, "_action_id"),
+                                         (1, conds, COND_FIELDS, COND_WIDTH, "_condition_id")):
+        for key, tcls in sorted(reg.items()):
+            row = by_key[kind].get(key)
+            good = next((c for c in cases if c[0] == kind and c[1] == key and c[2] == "dec" and c[4][0] == 1), None)
+            if not row or not good:
+                continue
+            used = {x[3] for x in row["dec"]} | {idf, "_flags"}
+            plain = {f: (v if f in used else 0) for f, v in good[3].items()}
+            masked = dict(plain)
+            for f in flds:
+                if f not in used:
+                    masked[f] = 0x4353 if f == "_mask_flag" else min(0x100, 2 ** (8 * widths[f]) - 1)
+
+            def enc(rec, tcls=tcls, flds=flds):
+                return [(fl, getattr(rec, fl)) for fl in flds]
+
+            def f(tcls=tcls, kind=kind, plain=plain, masked=masked):
+                b = tcls().decode(mk_record(kind, plain), probe.dctx)
+                e1 = enc(tcls().encode(b, probe.ectx))
+                try:
+                    keep_alive.append(tcls().decode(mk_record(kind, masked), probe.dctx))
+                except Exception:  # noqa  (a transcoder may refuse the masked record; nothing to compare then)
+                    return None
+                b2 = tcls().decode(mk_record(kind, plain), probe.dctx)
+                e2, e3 = enc(tcls().encode(b2, probe.ectx)), enc(tcls().encode(b, probe.ectx))
+                return None if e1 == e2 == e3 else [e1, e2, e3]
+            r = vlib.impl_result(f)
+            ck.evaluations += 1
+            if r[0] == 1 and r[1]:
+                diff = [(a, b_) for a, b_ in zip(r[1][0], r[1][1] if r[1][1] != r[1][0] else r[1][2]) if a != b_]
+                ck.violation(f"{'action' if kind == 0 else 'condition'} type {key}: after a record that differs only in unused "
+                             f"fields was decoded (and is still alive), encoding the plain twin gives different fields: {diff[:3]}",
+                             {"kind": "state", "which": kind, "key": key, "plain": plain, "masked": masked, "difference": diff}, True)
     lines_gen, lines_spec, expect = [], [], []
     for kind, key, direction, payload, res in cases:
         op = 1 if direction == "dec" else 2
